@@ -183,6 +183,8 @@ func genC03(r *Rand, idx int, tier string) Case {
 func genC11(r *Rand, idx int, tier string) Case {
 	cfg := genCfg(r)
 	cfg.MaxHand = 0
+	// half of the cases on squashing exports: the raw credential on the wire and the identity in force differ
+	cfg.Squash = PickStr(r, "", "", "root", "all")
 	s := NewSession(cfg, popTree(NewRand(r.U64(), 3)))
 	root := nfsx.Cred{}
 	s.Do(0, root, &nfsx.Req{Proc: "MNT", Name: []byte("/")})
@@ -206,6 +208,12 @@ func genC11(r *Rand, idx int, tier string) Case {
 		}
 		if c.Uid != 0 && (sa.Uid != nil || sa.Gid != nil) {
 			s.Tags["nonroot-owner-requests"]++
+		}
+		if e := cfg.Effective(c); e.Uid != c.Uid || e.Gid != c.Gid {
+			s.Tags["raw-differs-from-effective"]++
+			if c.Uid == 0 && (sa.Uid != nil || sa.Gid != nil) {
+				s.Tags["squashed-root-owner-requests"]++
+			}
 		}
 		proc := PickStr(r, "SETATTR", "SETATTR", "CREATE", "MKDIR", "SYMLINK")
 		q := &nfsx.Req{Proc: proc, H: s.pickHandle(r), Name: pickName(r, 0), Sa: sa, Target: []byte("a"), How: uint32(r.Intn(2))}
